@@ -144,6 +144,8 @@ class _MatchDesugar(ast.NodeTransformer):
             if any(p[0] is None or p[1] for p in parts):
                 return None, []
             return ast.BoolOp(op=ast.Or(), values=[p[0] for p in parts]), []
+        if isinstance(pat, ast.MatchClass) and not pat.patterns and not pat.kwd_patterns:
+            return ast.Call(func=ast.Name(id='isinstance', ctx=ast.Load()), args=[subj(), pat.cls], keywords=[]), []
         if isinstance(pat, ast.MatchAs) and pat.pattern is None:
             binds = [ast.Assign(targets=[ast.Name(id=pat.name, ctx=ast.Store())], value=subj())] if pat.name else []
             return ast.Constant(True), binds
@@ -741,6 +743,19 @@ class Repo:
                     tgt = self.find_method(fi.cls.qualname, n.func.attr)
             if tgt is not None and self.is_fresh(tgt.qualname):
                 self.with_fresh_callees(tgt, seen)
+        # ... and every fresh function it merely names (handed to functools.partial, map, a table) or reaches through a module-level
+        # table whose entries name fresh functions (an if / elif dispatch turned into a lookup)
+        def fresh_named(expr: ast.AST, mi: 'ModuleInfo', depth: int = 0):
+            for m in ast.walk(expr):
+                if isinstance(m, ast.Name) and isinstance(m.ctx, ast.Load):
+                    q = self.resolve_name(mi, m.id)
+                    kind, obj = self.lookup(q)
+                    if kind == 'func' and self.is_fresh(obj.qualname):
+                        self.with_fresh_callees(obj, seen)
+                    elif kind == 'const' and depth < 2:
+                        m2, e2 = obj
+                        fresh_named(e2, m2, depth + 1)
+        fresh_named(fi.node, fi.module)
         return list(seen.values())
 
     def digest(self) -> str:
